@@ -71,8 +71,8 @@ func newProc(kind string, timeoutMs int) (*proc, error) {
 		f, _ := os.OpenFile(fmt.Sprintf("%s.%s.%d.smt2", p, kind, cmd.Process.Pid), os.O_CREATE|os.O_WRONLY|os.O_TRUNC, 0644)
 		s.Log = f
 	}
+	s.send("(set-option :global-declarations true)\n(set-option :produce-models true)\n")
 	if kind != "cvc5" {
-		s.send("(set-option :global-declarations true)\n(set-option :produce-models true)\n")
 		s.send(fmt.Sprintf("(set-option :timeout %d)\n", timeoutMs))
 	}
 	s.send("(set-logic ALL)\n")
@@ -459,4 +459,38 @@ func (s *Solver) CheckWith(extra ...*Term) Result {
 
 func (s *Solver) Model(vars []*Term) (map[string]interface{}, error) {
 	return s.procs[s.lastSat].Model(vars)
+}
+
+// IntValue reads the value of an Int term after a Sat result.
+func (s *Solver) IntValue(t *Term) (*big.Int, error) { return s.procs[s.lastSat].intValue(t) }
+
+func (s *proc) intValue(t *Term) (*big.Int, error) {
+	r := s.Declare(t)
+	s.send(fmt.Sprintf("(get-value (%s))\n(echo \"@@done\")\n", r))
+	var out strings.Builder
+	for {
+		line, err := s.readLine()
+		if err != nil {
+			s.dead = true
+			return nil, err
+		}
+		if strings.Trim(line, "\"") == "@@done" {
+			break
+		}
+		out.WriteString(line)
+		out.WriteByte(' ')
+	}
+	pairs, ok := splitSExprList(strings.TrimSpace(out.String()))
+	if !ok || len(pairs) != 1 {
+		return nil, fmt.Errorf("get-value: cannot parse %q", out.String())
+	}
+	kv, ok := splitSExprList(pairs[0])
+	if !ok || len(kv) != 2 {
+		return nil, fmt.Errorf("get-value: bad pair %q", pairs[0])
+	}
+	v, ok := parseIntLit(kv[1])
+	if !ok {
+		return nil, fmt.Errorf("get-value: bad int %q", kv[1])
+	}
+	return v, nil
 }
